@@ -579,6 +579,34 @@ func Block(desc string, ready func() bool) {
 	s.park(&pendingOp{ready: ready, desc: desc})
 }
 
+// Quiesce parks the caller until no other thread can run without the clock advancing (every other
+// thread is blocked, finished or sleeping).
+func Quiesce() {
+	s := cur
+	if s == nil {
+		return
+	}
+	self := s.running
+	Block("quiesce", func() bool {
+		for _, t := range s.threads {
+			if t != self && t.enabled(s) {
+				return false
+			}
+		}
+		return true
+	})
+}
+
+// Closed reports whether a (virtual) channel has been closed.
+func Closed(ch any) bool {
+	s := cur
+	if s == nil {
+		return false
+	}
+	c := s.vc(ch)
+	return c != nil && c.closed
+}
+
 // Logf appends to the execution's observation log.
 func Logf(format string, a ...any) {
 	if s := cur; s != nil {
